@@ -95,6 +95,25 @@ type Cfg struct {
 	Bounds     []int
 	Thorough   bool
 	ExtFinOnIn bool // input a is created with a foreign finalizer "ext" (already present)
+	// GrabAtDestroy: as an environment choice, a third party puts its finalizer on an output right before
+	// the controller's first Destroy of it (i.e. after the controller's Teardown reported ready)
+	GrabAtDestroy bool
+}
+
+// grabber wraps the core state for GrabAtDestroy.
+type grabber struct {
+	state.CoreState
+	done bool
+}
+
+func (g *grabber) Destroy(ctx context.Context, p resource.Pointer, opts ...state.DestroyOption) error {
+	if p.Type() == BType && !g.done && vrt.Choose(2, "third party grabs the output before Destroy") == 1 {
+		g.done = true
+		if err := state.WrapCore(g.CoreState).AddFinalizer(ctx, p, "third"); err != nil {
+			panic(err)
+		}
+	}
+	return g.CoreState.Destroy(ctx, p, opts...)
 }
 
 // usesInputFinalizers: the controller puts its own finalizer on inputs.
@@ -235,7 +254,11 @@ func register(rt *runtime.Runtime, c Cfg, invocations *int) error {
 func Body(c Cfg, prop string, x *explore.X) {
 	ctx, cancel := context.WithCancel(context.Background())
 	log := &hx.Log{}
-	st := state.WrapCore(hx.NewNamespaced(log))
+	var core state.CoreState = hx.NewNamespaced(log)
+	if c.GrabAtDestroy {
+		core = &grabber{CoreState: core}
+	}
+	st := state.WrapCore(core)
 	rt, err := runtime.NewRuntime(st, zap.NewNop(), options.WithMetrics(false))
 	if err != nil {
 		panic(err)
@@ -479,6 +502,14 @@ func Build(prop, tier string) []explore.Scenario {
 			cfgs = append(cfgs, Cfg{Name: fl + "/" + n, Flavour: fl, Script: sc[n], Bounds: b})
 		}
 		cfgs = append(cfgs, Cfg{Name: fl + "/create-update/transient-error", Flavour: fl, Script: []string{"create a", "update a"}, FailFirst: 1, Bounds: b})
+	}
+	// a transform that keeps failing: the input gets the finalizer but never an output; then it is torn down
+	for _, fl := range []string{"transform-fin", "qtransform"} {
+		cfgs = append(cfgs, Cfg{Name: fl + "/always-failing-transform/tdd", Flavour: fl, Script: []string{"create a", "tdd a"}, FailFirst: 1 << 20, Bounds: []int{0}})
+	}
+	// a third party grabs the output between the controller's teardown and destroy (needs one preemption)
+	for _, fl := range []string{"transform-fin", "qtransform"} {
+		cfgs = append(cfgs, Cfg{Name: fl + "/thirdparty-grabs-output-before-destroy", Flavour: fl, Script: []string{"create a", "tdd a", "outrmfin a"}, GrabAtDestroy: true, Bounds: []int{0}})
 	}
 	// teardown-ignoring options of qtransform: inputs first seen while already tearing down
 	for _, fl := range []string{"qtransform-until", "qtransform-while"} {
